@@ -26,7 +26,7 @@
 #define VP_D(e) ((e) - LE(e)) /* growth of a counter since loop entry */
 /* ghost written by the transfer loops */
 /* what a removal of the head rewrites in the stand-in aio */
-#define VP_LATER_T(a) (a)->a_count, (a)->a_nio, __CPROVER_object_upto(&(a)->a_iov[0], sizeof((a)->a_iov))
+#define VP_LATER_T(a) (a)->a_count
 #define VP_XFER_GHOSTS g_sys
 #define VP_Q_TARGETS(q) (q).s, (q).first->a_count, VP_LATER_T((q).later)
 /* the last completion belongs to the last call that returned n >= 0: same aio; n > 0: success with
@@ -37,8 +37,10 @@
 	    ((g_sys.ok_ret > 0 || g_sys.ok_kind == VP_SYS_WRITE)                                  \
 	            ? (g_fin_last_rv == 0 && g_fin_last_count == g_sys.ok_count0 + (size_t) g_sys.ok_ret) \
 	            : (g_fin_last_rv == (int) NNG_ECONNSHUT && g_fin_last_count == 0)))
+/* g_sys is one assigns target: the fields these loops never write keep their values */
+#define VP_SYS_REST_SAME (VP_D(g_start_calls) == 0 && VP_D(g_arm_calls) == 0 && VP_D(g_pfd_close_calls) == 0 && VP_D(g_pfd_stop_calls) == 0 && VP_D(g_dialcb_calls) == 0)
 #define VP_XFER_INV(q)                                                                        \
-	((q).s.n <= LE((q).s.n) && VP_D(g_pops) == LE((q).s.n) - (q).s.n && VP_D(g_fin_calls) == VP_D(g_pops) && \
+	(VP_SYS_REST_SAME && (q).s.n <= LE((q).s.n) && VP_D(g_pops) == LE((q).s.n) - (q).s.n && VP_D(g_fin_calls) == VP_D(g_pops) && \
 	    VP_D(g_sys.n_ok) == VP_D(g_pops) && VP_D(g_sys.n_again) == 0 && VP_D(g_sys.n_err) == 0 && \
 	    VP_D(g_sys.calls) == VP_D(g_sys.n_ok) + VP_D(g_sys.n_intr) &&                            \
 	    (VP_D(g_pops) == 0 ? ((q).s.orig == LE((q).s.orig)) : !(q).s.orig) &&                        \
@@ -46,7 +48,7 @@
 	    ((q).s.n == 0 || ((q).s.orig ? (VP_AIO_WF((q).first) && (q).first->a_count == vp_c0) : VP_AIO_WF((q).later))))
 /* error / close loops: every removal is followed by the completion of that aio with the code */
 #define VP_DRAIN_INV(code)                                                                    \
-	(g_rq.s.n <= LE(g_rq.s.n) && g_wq.s.n <= LE(g_wq.s.n) &&                                  \
+	(VP_SYS_REST_SAME && g_rq.s.n <= LE(g_rq.s.n) && g_wq.s.n <= LE(g_wq.s.n) &&                                  \
 	    VP_D(g_pops) == (LE(g_rq.s.n) - g_rq.s.n) + (LE(g_wq.s.n) - g_wq.s.n) &&               \
 	    VP_D(g_fin_calls) == VP_D(g_pops) && VP_D(g_sys.calls) == 0 &&                         \
 	    (VP_D(g_pops) > 0 ==> (g_fin_last == g_pop_last && g_fin_last_rv == (int) (code) && g_fin_last_count == 0)))
